@@ -318,6 +318,13 @@ def check(ctx) -> None:
     # S9: the front end does not drop rows after a look at their text (shared with C05-P11)
     c05.rule_p11(ctx, "C14-S9")
     rule_s8(ctx)
+    # S10: the composition of a side does not depend on where the dots are: it is computed from the whole side string,
+    # not summed over separately parsed pieces (`C1.O1` is methanol; shared with C07-E2)
+    ctx.rule("C14-S10", "the text parsed for the composition is the whole side string handed to decompose", 0)
+    c07.piecewise_findings(ctx, "C14-S10")
+    # S11: the carbon count behind the carbon label counts by element, aromatic and aliphatic spelling alike (shared
+    # with C07-E13)
+    c07.rule_e13(ctx, "C14-S11")
 
 
 def rule_s8(ctx) -> None:
